@@ -903,6 +903,50 @@ Definition launch_delay_gen (ts_x dur_x ts_y : Z) : Z := Z.max 0 (ts_y - ts_x - 
     return "gen/LaunchStats_gen.v"
 
 
+# ---- Trace._filter_irrelevant_gpu_kernels (hta/common/trace.py) -> coq/gen/TrimRules_gen.v ----
+def gen_trim_rules() -> str:
+    """Reads the per-rank helper of Trace._filter_irrelevant_gpu_kernels statement by statement (strict shape): host rows and device rows
+    by the two shared filters, the early return below two steps, the latest step start / end, the cut (<= end when the last step is
+    kept, < start otherwise), device rows joined with the kept host rows' distinct correlation ids, the concatenation."""
+    path = "hta/common/trace.py"
+    tree = ast.parse(open(os.path.join(fw.REPO, path)).read())
+    cls = next((n for n in tree.body if isinstance(n, ast.ClassDef) and n.name == "Trace"), None)
+    fn = next((n for n in (cls.body if cls else []) if isinstance(n, ast.FunctionDef) and n.name == "_filter_irrelevant_gpu_kernels"), None)
+    if fn is None:
+        raise Stop("Trace._filter_irrelevant_gpu_kernels not found")
+    inner = next((n for n in fn.body if isinstance(n, ast.FunctionDef) and n.name == "filter_gpu_kernels_for_one_rank"), None)
+    if inner is None:
+        raise Stop("_filter_irrelevant_gpu_kernels: helper filter_gpu_kernels_for_one_rank not found")
+    texts = [ast.unparse(st) for st in inner.body if not (isinstance(st, ast.Expr) and isinstance(st.value, ast.Constant))]
+    want = ["cpu_kernels = CPUOperatorFilter()(trace_df, self.symbol_table)",
+            "gpu_kernels = GPUKernelFilter()(trace_df, self.symbol_table)",
+            "if cpu_kernels['name'].isin(profiler_steps).sum() < 2:\n    return trace_df",
+            "last_profiler_start = cpu_kernels[cpu_kernels['name'].isin(profiler_steps)]['ts'].max()",
+            "last_profiler_end = cpu_kernels[cpu_kernels['name'].isin(profiler_steps)]['end'].max()",
+            "cpu_kernels = cpu_kernels[cpu_kernels['ts'] <= last_profiler_end] if include_last_profiler_step else cpu_kernels[cpu_kernels['ts'] < last_profiler_start]",
+            "filtered_gpu_kernels = gpu_kernels.merge(cpu_kernels['correlation'].drop_duplicates(), on='correlation', how='inner')",
+            "return pd.concat([filtered_gpu_kernels, cpu_kernels], axis=0)"]
+    if texts != want:
+        bad = next((a for a, b in zip(texts, want) if a != b), f"{len(texts)} statements instead of {len(want)}")
+        raise Stop(f"_filter_irrelevant_gpu_kernels: `{bad[:140]}` is not what the model was written for")
+    steps = next((ast.unparse(st) for st in fn.body if isinstance(st, ast.Assign) and ast.unparse(st.targets[0]) == "profiler_steps"), None)
+    if steps != "profiler_steps = [v for k, v in sym_index.items() if 'ProfilerStep' in k]":
+        raise Stop(f"_filter_irrelevant_gpu_kernels: profiler_steps is `{steps}`")
+    out = '''(* GENERATED by harness/translate.py from hta/common/trace.py (Trace._filter_irrelevant_gpu_kernels) -- do not edit.
+   A rank with fewer than min_steps_gen host rows named like a step is returned as it is; otherwise host rows are kept by the cut
+   below (latest step start / latest step end over those rows), device rows when a kept host row carries their correlation id. *)
+From HTA.lib Require Import Base.
+Open Scope Z_scope.
+
+Definition min_steps_gen : Z := 2.
+Definition step_marker_gen : string := "ProfilerStep".
+Definition host_cut_gen (incl : bool) (ts_ last_start last_end : Z) : bool :=
+  if incl then ts_ <=? last_end else ts_ <? last_start.
+'''
+    write_if_changed(os.path.join(GEN, "TrimRules_gen.v"), out)
+    return "gen/TrimRules_gen.v"
+
+
 # ---- the change classes of hta/trace_diff.py -> coq/gen/DiffRules_gen.v ----
 def gen_diff_rules() -> str:
     """Reads TraceDiff.compare_traces (diff_counts / diff_duration = test minus control; the sign lambda of counts_change_categories) and the
